@@ -36,6 +36,38 @@ def _with_regions(node):
             yield a
 
 
+def _r16g(cx, repo):
+    """'Unless the caller supplied an id' is tested on the headers of the call.  If the generated id is stored into the caller's own
+    dict, a caller that re-uses its dict finds the library's earlier id in it on the next request: the id is taken for
+    caller-supplied and sent again - repeated ids nobody asked for.  Decided on the flow graph of do_request (helpers expanded):
+    on every path to the store, `headers` was re-bound to the request record's copy or to a fresh dict (rules/c17.py)."""
+    from rules.c17 import header_mutation_paths
+    do_req = cx.func(REL, "_HttpConnImpl.do_request", "R16g")
+    res = header_mutation_paths(repo, do_req)
+    n = 0
+    for node, pth in res:
+        if not (isinstance(node, ast.Subscript) and const(node.slice, str) and node.slice.value.lower() == "x-request-id"):
+            continue
+        n += 1
+        cx.ob("R16g", node, pth is None, "the id is stored into the header copy of this call" if pth is None else
+              f"the generated id is stored into the caller's own headers dict (path through lines {pth}): a caller that re-uses the dict sends this id again "
+              "with its next request - the id then counts as caller-supplied and no new number is taken")
+    cx.at_least("R16g", "stores of the generated id into the headers", n, 1)
+
+
+def _read_just_before(store_stmt, local, counter_attr_node):
+    """`local = <same attribute>` is the statement right before `store_stmt` in the same block"""
+    from sa.guards import _block_of
+    _o, _f, lst = _block_of(store_stmt)
+    if lst is None:
+        return False
+    i = [k for k, x in enumerate(lst) if x is store_stmt][0]
+    if i == 0:
+        return False
+    prev = lst[i - 1]
+    return isinstance(prev, ast.Assign) and len(prev.targets) == 1 and is_name(prev.targets[0], local) and norm(prev.value) == norm(counter_attr_node)
+
+
 def run(cx):
     repo = cx.repo
     mod = repo.mod(REL, "R16")
@@ -47,6 +79,8 @@ def run(cx):
     cx.rule("R16d", "one counter per connection family (shared conn_impl; all requests through self.conn_impl.do_request)")
     cx.rule("R16e", "single call site of the id generator, guarded by 'enabled' and by the caller-supplied header test on the stored key")
     cx.rule("R16f", "id format embeds the un-reduced counter value")
+    cx.rule("R16g", "the generated id is written into a headers dict of this call, never into the dict the caller passed")
+    cx.guard(_r16g, cx, repo)
     cx.trust("CPython: `with lock:` is mutual exclusion; int `+=` under the lock is atomic w.r.t. other holders")
 
     # ---- discover the lock attribute(s) and the counter attribute ------------
@@ -125,6 +159,11 @@ def run(cx):
                 elif isinstance(p, ast.Assign) and isinstance(p.value, ast.BinOp) and isinstance(p.value.op, ast.Add) \
                         and is_attr(p.value.left, n.attr) and const(p.value.right, int) and p.value.right.value == 1:
                     cx.ob("R16b", p, True, "increment by the constant 1")
+                    gen_funcs.add(f)
+                elif isinstance(p, ast.Assign) and isinstance(p.value, ast.BinOp) and isinstance(p.value.op, ast.Add) and const(p.value.right, int) and p.value.right.value == 1 \
+                        and not isinstance(p.value.right.value, bool) and isinstance(p.value.left, ast.Name) and _read_just_before(p, p.value.left.id, n):
+                    # v = self.counter; self.counter = v + 1   (read and store next to each other, in the same block: the same region)
+                    cx.ob("R16b", p, True, "increment by the constant 1 (value read into a local just before, in the same block)")
                     gen_funcs.add(f)
                 else:
                     cx.ob("R16b", p if isinstance(p, ast.stmt) else n, False,
